@@ -53,6 +53,7 @@ def abs_obligations(S):
         if p.outcome.kind != "ret":
             add({"C04", "C29"}, f"{p.outcome.kind}", z3.BoolVal(False), {"msg": p.outcome.msg})
             continue
+        add({"C04"}, "path-ends-in-return", z3.BoolVal(True))
         v = V(ex, p.st)
         r = p.outcome.value
         i = ex.enum_field(p.st, v0, "Integer", 0, "i64").e
@@ -170,6 +171,7 @@ def format_radix_obligations(S, radices, max_digits=64):
             if p.outcome.kind != "ret":
                 add({"C04", "C25"}, f"{p.outcome.kind}", z3.BoolVal(False), {"msg": p.outcome.msg})
                 continue
+            add({"C04"}, "path-ends-in-return", z3.BoolVal(True))
             digits = [e["value"] for e in p.st.trace if e["kind"] == "digit"]    # least significant first
             pushes = [e for e in p.st.trace if e["kind"] == "push_front"]
             # positional notation: |x| = sum d_k * radix^k, each d_k < radix, most significant digit non-zero (or x == 0)
@@ -207,14 +209,14 @@ def mod_obligations(S):
     return obls, fns
 
 
-def obligations(S=None, radices=(2, 10, 16, 36)):
+def obligations(S=None, radices=(2, 10, 16, 36), max_digits=2):
     S = S or session()
     obls, fns = [], []
     for fn in (abs_obligations, mod_obligations):
         o, f = fn(S)
         obls += o
         fns += f
-    o, f = format_radix_obligations(S, radices)
+    o, f = format_radix_obligations(S, radices, max_digits)
     obls += o
     fns += f
     return obls, sorted(set(fns))
